@@ -76,6 +76,8 @@ class HFL(Harness):
             calls.append(snap(np.asarray(x)))
             if kind == "raise":
                 raise TargetError("target failed")
+            if kind == "raise_noargs":
+                raise TargetError()          # e.g. a bare `assert` or `raise SomeError` in the user's target
             if he:
                 if kind == "nontuple":
                     return y
@@ -149,6 +151,11 @@ class HFL(Harness):
             exc = e
         except ValueError as e:
             exc = e
+        except Exception as e:
+            if kind in ("raise", "raise_noargs"):
+                exc = e       # some other exception type replaced the target's own: judged by the obligation below
+            else:
+                raise
         ncalls = len([c for c in calls if not isinstance(c, tuple)])
         Xn1 = fl.Xn
         tag = dict(exc=type(exc).__name__ if exc else None, Xn=int(Xn1), rows=int(fl.X.shape[0]))
@@ -178,7 +185,7 @@ class HFL(Harness):
                        O.And(O.rows_eq(inv[0][1], x, 0.0), O.rows_eq(tgt[0], sym_array(eng, "xo", (1, D))[0], 0.0)))
             else:
                 out.ob("target_gets_point", ncalls == 1 and O.rows_eq(calls[-1], x, 0.0))
-        if kind == "raise":
+        if kind in ("raise", "raise_noargs"):
             out.ob("target_exception_propagates_same_type", isinstance(exc, TargetError))
         elif not expect_valid and op == "call":
             out.ob("invalid_value_raises_ValueError", isinstance(exc, ValueError))
